@@ -207,6 +207,37 @@ def live_sizes(spec, res):
         if r.get('status') != 'ok':
             res.violation('C06/live:daemon-stopped-answering', 'after the size sweep numwatchers answered %s' % str(r)[:100])
         res.sample = {'live': True, 'request_sizes': sizes}
+        # requests that end the loop they are served by: a restart of the whole arbiter and the final quit, both sent
+        # with waiting -- each gets exactly one reply, and the restarted arbiter answers the request in between
+        for n, (cmd, props) in enumerate([('restart', {'waiting': True}), ('numwatchers', {}), ('quit', {'waiting': True})]):
+            sock = ctx.socket(zmq.DEALER)
+            sock.setsockopt(zmq.LINGER, 0)
+            sock.connect(d.endpoint)
+            mid = 'end-%d-%d' % (spec['idx'], n)
+            sock.send(json.dumps({'id': mid, 'command': cmd, 'properties': props}).encode())
+            got = []
+            t_end = time.time() + 15
+            while time.time() < t_end:
+                if sock.poll(200):
+                    try:
+                        got.append(json.loads(sock.recv()))
+                    except ValueError:
+                        got.append('not-json')
+                    t_end = min(t_end, time.time() + 1.0)
+            sock.close()
+            mine = [g for g in got if isinstance(g, dict) and g.get('id') == mid]
+            res.obs['live_loop_ending_requests'] += 1
+            if len(mine) != 1:
+                res.violation('C06/live:reply-count[%s%s]:%d-instead-of-1' % (cmd, '-waiting' if props else '', len(mine)),
+                              '%s %s to a real circusd got %d replies bearing its id within 15 s (all frames: %d)'
+                              % (cmd, props, len(mine), len(got)))
+                break
+            if cmd == 'restart':
+                time.sleep(0.5)
+        else:
+            rc = d.wait_exit(20)
+            if rc != 0:
+                res.inconclusive.append('live: circusd exit status %s after quit (C08 owns)' % rc)
     finally:
         ctx.destroy(linger=0)
         d.cleanup()
